@@ -67,6 +67,7 @@ def run(ctx):
     ctx.rule('C18-R3', 'format_time: seconds = t / 10^6 through gmtime_r (UTC, re-entrant) and strftime("%Y-%m-%d %H:%M:%S"), then ".%06" of t mod 10^6; timeval conversions use the same 10^6 both ways', 5)
     ctx.rule('C18-R4', 'size ladder: format_size (both forms) uses threshold 1024^(k+1), divisor 1024^k and suffix K/M/G/T/P/E in step with parse_size\'s letter table; parse_size multiplies the integer part in integer arithmetic', 18)
     ctx.rule('C18-R5', 'format_duration evaluated (E-TABLE) for durations around 0, 1 s, 60 s, 3600 s, 86400 s (+-2 s), fixed pseudo-random durations up to 2^63 and precision -1..6: never throws, [d:][h:][m:]s[.f] with two-digit inner fields, evaluates back to the input rounded at the printed precision', 1)
+    ctx.rule('C18-R6', 'format_time evaluated (E-TABLE) on timestamps across 1970..9999 (year ends, leap days, second-59 and microsecond edges) against python datetime; format_size / parse_size evaluated at every power-of-1024 boundary +-1: right unit, value and read-back within the printed precision', 2)
     u = ctx.unit(repo_unit('Time.cc'))
     us = ctx.unit(repo_unit('Strings.cc'))
     fd = u.func('phosg::format_duration')[0]
@@ -82,26 +83,6 @@ def run(ctx):
     ctx.check(not mt, R, 'format_duration|no-throw', fd, 'nothing can escape format_duration', 'format_duration can throw %s' % '; '.join('%s via %s' % (t, w_[:200]) for t, w_ in mt.items()))
     ctx.extra['exemptions'] = ['%s: %s' % (e[0], e[2]) for e in E.exemptions]
     body = body_of(fd)
-    pads = [x for x in walk(body) if x.get('kind') == 'ConditionalOperator' and string_lit(x['inner'][1]) in (b'0',) and string_lit(x['inner'][2]) == b'']
-    if len(pads) != 3:
-        ctx.undecided(R, 'pad|structure', fd, 'format_duration: the three `? "0" : ""` padding decisions were not found (%d): padding is decided by evaluation (C18-R5) only' % len(pads))
-        pads = []
-    I = StrEval(u)
-    classes = [(b'5', True), (b'0', True), (b'5.250', True), (b'9.999999', True), (b'15', False), (b'59', False), (b'15.5', False), (b'59.999', False), (b'60', False), (b'60.000', False)]
-    for i, p in enumerate(pads):
-        strs = {canon(member_call_object(c)) for c in walk(p['inner'][0]) if c.get('kind') == 'CXXMemberCallExpr' and member_call_object(c) is not None} | \
-            {canon(c['inner'][1]) for c in walk(p['inner'][0]) if c.get('kind') == 'CXXOperatorCallExpr' and call_name(c) == 'operator[]'}
-        ctx.require(len(strs) == 1, 'padding test reads %s' % strs)
-        sv = strs.pop()
-        for txt, want in classes:
-            I.strings = {sv: txt}
-            I.notes = []
-            t = I.truth(I.eval(p['inner'][0], {}))
-            got = (t == 1) if t in (0, 1) else None
-            ctx.check(got == want and not I.notes, R, 'pad#%d|seconds=%s' % (i, txt.decode()), p, 'seconds text %r -> %s' % (txt.decode(), 'padded' if want else 'not padded'),
-                      'for a seconds field %r the padding test %s; a field with %s must %sget a leading zero%s' % (txt.decode(), 'is undecidable / throws (%s)' % '; '.join(I.notes) if got is None or I.notes else ('pads' if got else 'does not pad'),
-                                                                                                                  'one integer digit' if want else 'two integer digits', '' if want else 'not ', ' (the inner field would be one character wide)' if want else ''))
-
     # ---------------- R5: format_duration evaluated (E-TABLE) around every unit boundary x precision
     R = 'C18-R5'
     from peval import PEval, Str as PStr, Undecided as PUnd, Fault as PFault, Thrown as PThrown
@@ -171,175 +152,326 @@ def run(ctx):
     else:
         ctx.ok(R, 'format_duration|evaluated', fd, '%d (duration, precision) pairs around every unit boundary: fields padded, text evaluates back to the input at the printed precision' % n_ok5)
 
-    # ---------------- R2
-    R = 'C18-R2'
-    chain = next(s for s in stmts_of(body) if s.get('kind') == 'IfStmt')
-    thresholds = []
-    branches = []
-    s = chain
-    while s is not None and s.get('kind') == 'IfStmt':
-        cond, then, els = if_parts(s)
-        r = relation(cond, True)
-        thresholds.append(int_value(r[2]) if r and nf(r[0]) == 'usecs' and r[1] == '<' else None)
-        branches.append(then)
-        s = els
-    branches.append(s)
-    ctx.check(thresholds == [US, 60 * US, 3600 * US, 86400 * US], R, 'thresholds', chain, '1 s, 1 min, 1 h, 1 day', 'magnitude thresholds are %s' % thresholds)
-    want = {
-        2: {'minutes': '(usecs / %d)' % (60 * US), 'usecs_part': '(usecs - (%d * minutes))' % (60 * US)},
-        3: {'hours': '(usecs / %d)' % (3600 * US), 'minutes': '((usecs / %d) %% 60)' % (60 * US), 'usecs_part': '((usecs - (%d * hours)) - (%d * minutes))' % (3600 * US, 60 * US)},
-        4: {'days': '(usecs / %d)' % (86400 * US), 'hours': '((usecs / %d) %% 24)' % (3600 * US), 'minutes': '((usecs / %d) %% 60)' % (60 * US),
-            'usecs_part': '(((usecs - (%d * days)) - (%d * hours)) - (%d * minutes))' % (86400 * US, 3600 * US, 60 * US)},
-    }
-    fmts = {2: b'%lu:%s', 3: b'%lu:%02lu:%s', 4: b'%lu:%02lu:%02lu:%s'}
-    for bi, fields in want.items():
-        br = branches[bi]
-        got = {v['name']: _fold(kids(v)[-1]) for v in walk(br) if v.get('kind') == 'VarDecl' and v.get('name') in fields and kids(v)}
-        for nm, w_ in fields.items():
-            ctx.check(got.get(nm) == w_, R, 'branch%d|%s' % (bi, nm), br, '%s = %s' % (nm, w_), '%s is computed as %s, expected %s' % (nm, got.get(nm), w_))
-        secs = next((v for v in walk(br) if v.get('kind') == 'VarDecl' and v.get('name') == 'seconds_str'), None)
-        oks = secs is not None and any(string_lit(a) == b'%.*lf' for c in walk(secs) if c.get('kind') == 'CallExpr' for a in call_args(c)[:1]) and 'usecs_part' in nf(kids(secs)[-1]) and str(US) in _fold(kids(secs)[-1])
-        if secs is None:
-            ctx.undecided(R, 'branch%d|seconds-text' % bi, br, 'no separate seconds text in this branch: its layout is decided by evaluation (C18-R5) only')
-            continue
-        ctx.check(oks, R, 'branch%d|seconds-text' % bi, secs or br, 'seconds = usecs_part / 10^6 printed with %.*lf', 'seconds text is built from %s' % (nf(kids(secs)[-1]) if secs else None))
-        f0 = [string_lit(call_args(c)[0]) for c in walk(br) if c.get('kind') == 'CallExpr' and call_name(c) == 'string_printf' and string_lit(call_args(c)[0]) and b':' in string_lit(call_args(c)[0])]
-        ctx.check(f0 == [fmts[bi]], R, 'branch%d|field-format' % bi, br, fmts[bi].decode(), 'field format is %s (inner fields must be %%02, the leading field unpadded)' % f0)
-        args = [nf(a) for c in walk(br) if c.get('kind') == 'CallExpr' and call_name(c) == 'string_printf' and string_lit(call_args(c)[0]) == fmts[bi] for a in call_args(c)[1:-1]]
-        ctx.check(args == [k for k in fields if k != 'usecs_part'], R, 'branch%d|field-order' % bi, br, 'fields printed largest first', 'fields are printed as %s' % args)
+    def r1_structure():
+        R = 'C18-R1'
+        body = body_of(fd)
+        pads = [x for x in walk(body) if x.get('kind') == 'ConditionalOperator' and string_lit(x['inner'][1]) in (b'0',) and string_lit(x['inner'][2]) == b'']
+        if len(pads) != 3:
+            ctx.undecided(R, 'pad|structure', fd, 'format_duration: the three `? "0" : ""` padding decisions were not found (%d): padding is decided by evaluation (C18-R5) only' % len(pads))
+            pads = []
+            ctx.rules['C18-R1'] = (ctx.rules['C18-R1'][0], 1)
+        I = StrEval(u)
+        classes = [(b'5', True), (b'0', True), (b'5.250', True), (b'9.999999', True), (b'15', False), (b'59', False), (b'15.5', False), (b'59.999', False), (b'60', False), (b'60.000', False)]
+        for i, p in enumerate(pads):
+            strs = {canon(member_call_object(c)) for c in walk(p['inner'][0]) if c.get('kind') == 'CXXMemberCallExpr' and member_call_object(c) is not None} | \
+                {canon(c['inner'][1]) for c in walk(p['inner'][0]) if c.get('kind') == 'CXXOperatorCallExpr' and call_name(c) == 'operator[]'}
+            need(len(strs) == 1, 'padding test reads %s' % strs)
+            sv = strs.pop()
+            for txt, want in classes:
+                I.strings = {sv: txt}
+                I.notes = []
+                t = I.truth(I.eval(p['inner'][0], {}))
+                got = (t == 1) if t in (0, 1) else None
+                ctx.check(got == want and not I.notes, R, 'pad#%d|seconds=%s' % (i, txt.decode()), p, 'seconds text %r -> %s' % (txt.decode(), 'padded' if want else 'not padded'),
+                          'for a seconds field %r the padding test %s; a field with %s must %sget a leading zero%s' % (txt.decode(), 'is undecidable / throws (%s)' % '; '.join(I.notes) if got is None or I.notes else ('pads' if got else 'does not pad'),
+                                                                                                                      'one integer digit' if want else 'two integer digits', '' if want else 'not ', ' (the inner field would be one character wide)' if want else ''))
 
-    # ---------------- R3
-    R = 'C18-R3'
-    fb = body_of(ft)
-    calls = [call_name(c) for c in walk(fb) if c.get('kind') == 'CallExpr']
-    gm = [c for c in walk(fb) if c.get('kind') == 'CallExpr' and call_name(c) in ('gmtime_r', 'gmtime', 'localtime', 'localtime_r')]
-    ctx.check(len(gm) == 1 and call_name(gm[0]) == 'gmtime_r', R, 'format_time|gmtime_r', gm[0] if gm else ft, 'UTC breakdown into a caller-owned struct tm (re-entrant)',
-              'format_time uses %s: %s' % ([call_name(c) for c in gm], 'gmtime() returns a pointer to static storage shared by all threads, so concurrent calls print another call\'s date' if gm and call_name(gm[0]) == 'gmtime' else 'local time instead of UTC'))
-    sv = next((v for v in walk(fb) if v.get('kind') == 'VarDecl' and v.get('name') == 't_secs'), None)
-    ctx.check(sv is not None and nf(kids(sv)[-1]) == '(t / %d)' % US, R, 'format_time|seconds', sv or ft, 'seconds = t / 10^6', 'seconds are computed as %s' % (nf(kids(sv)[-1]) if sv else None))
-    sf = [c for c in walk(fb) if c.get('kind') == 'CallExpr' and call_name(c) == 'strftime']
-    ctx.check(len(sf) == 1 and string_lit(call_args(sf[0])[2]) == b'%Y-%m-%d %H:%M:%S', R, 'format_time|strftime', sf[0] if sf else ft, 'YYYY-MM-DD HH:MM:SS', 'strftime format changed')
-    sn = [c for c in walk(fb) if c.get('kind') == 'CallExpr' and call_name(c) == 'snprintf']
-    oku = len(sn) == 1 and string_lit(call_args(sn[0])[2]) == b'.%06u' and _fold(call_args(sn[0])[3]) in ('(t %% %d)' % US,) and 'len' in nf(call_args(sn[0])[0])
-    if not sn:
-        # appended with string_printf(".%06u", t % 10^6) after the date text
-        from guard import subst_locals
-        sp_ = [c for c in walk(fb) if c.get('kind') == 'CallExpr' and call_name(c) == 'string_printf' and string_lit(call_args(c)[0]) == b'.%06u']
-        if len(sp_) == 1 and sf and sp_[0]['_off'] > sf[0]['_off']:
-            val_ = subst_locals(_fold(call_args(sp_[0])[1]), sp_[0])
-            oku = val_ in ('(t %% %d)' % US,) and strip(containing_statement(sp_[0])).get('kind') == 'CXXOperatorCallExpr' and call_name(strip(containing_statement(sp_[0]))) == 'operator+='
-            sn = sp_
-    ctx.check(oku, R, 'format_time|microseconds', sn[0] if sn else ft, '".%06u" of t mod 10^6 appended after the date', 'microsecond suffix changed: %s' % (_fold(call_args(sn[0])[-1]) if sn else None))
-    a = u.func('phosg::usecs_to_timeval')[0]
-    b = u.func('phosg::timeval_to_usecs')[0]
-    aa = sorted(_fold(x['inner'][1]) for x in walk(body_of(a)) if x.get('kind') == 'BinaryOperator' and x.get('opcode') == '=')
-    rb_ = [nf(kids(r)[0]) for r in walk(body_of(b)) if r.get('kind') == 'ReturnStmt']
-    ctx.check(aa == sorted(['(usecs / %d)' % US, '(usecs %% %d)' % US]) and rb_ == ['((%d * tv.tv_sec) + tv.tv_usec)' % US] or rb_ == ['(tv.tv_usec + (%d * tv.tv_sec))' % US] and aa == sorted(['(usecs / %d)' % US, '(usecs %% %d)' % US]), R, 'timeval|inverse', a, 'sec = usecs / 10^6, usec = usecs mod 10^6; back: sec * 10^6 + usec', 'timeval conversions are %s / %s' % (aa, rb_))
 
-    # ---------------- R4
-    R = 'C18-R4'
-    fsz = us.func('phosg::format_size')[0]
-    psz = us.func('phosg::parse_size')[0]
-    ctx.fn('format_size')
-    ctx.fn('parse_size')
-    rows = {True: [], False: []}
-    top = stmts_of(body_of(fsz))
-    # first row: < 1024 -> bytes
-    r0 = relation(if_parts(top[0])[0], True) if top and top[0].get('kind') == 'IfStmt' else None
-    ctx.check(r0 is not None and nf(r0[0]) == 'size' and r0[1] == '<' and int_value(r0[2]) == 1024, R, 'format_size|bytes-row', top[0] if top else fsz, 'below 1024: plain bytes', 'the bytes row threshold changed')
-    inc = next((s_ for s_ in top if s_.get('kind') == 'IfStmt' and nf(if_parts(s_)[0]) == 'include_bytes'), None)
-    ctx.require(inc is not None, 'format_size: include_bytes split not found')
-    for flag, br in ((True, if_parts(inc)[1]), (False, if_parts(inc)[2])):
-        for s_ in stmts_of(br):
-            cond = None
-            ret = s_
-            if s_.get('kind') == 'IfStmt':
-                cond = if_parts(s_)[0]
-                ret = stmts_of(if_parts(s_)[1])[0]
-            pc = next((c for c in walk(ret) if c.get('kind') == 'CallExpr' and call_name(c) == 'string_printf'), None)
-            if pc is None:
+    def r2_structure():
+        R = 'C18-R2'
+        # ---------------- R2
+        R = 'C18-R2'
+        chain = next(s for s in stmts_of(body) if s.get('kind') == 'IfStmt')
+        thresholds = []
+        branches = []
+        s = chain
+        while s is not None and s.get('kind') == 'IfStmt':
+            cond, then, els = if_parts(s)
+            r = relation(cond, True)
+            thresholds.append(int_value(r[2]) if r and nf(r[0]) == 'usecs' and r[1] == '<' else None)
+            branches.append(then)
+            s = els
+        branches.append(s)
+        ctx.check(thresholds == [US, 60 * US, 3600 * US, 86400 * US], R, 'thresholds', chain, '1 s, 1 min, 1 h, 1 day', 'magnitude thresholds are %s' % thresholds)
+        want = {
+            2: {'minutes': '(usecs / %d)' % (60 * US), 'usecs_part': '(usecs - (%d * minutes))' % (60 * US)},
+            3: {'hours': '(usecs / %d)' % (3600 * US), 'minutes': '((usecs / %d) %% 60)' % (60 * US), 'usecs_part': '((usecs - (%d * hours)) - (%d * minutes))' % (3600 * US, 60 * US)},
+            4: {'days': '(usecs / %d)' % (86400 * US), 'hours': '((usecs / %d) %% 24)' % (3600 * US), 'minutes': '((usecs / %d) %% 60)' % (60 * US),
+                'usecs_part': '(((usecs - (%d * days)) - (%d * hours)) - (%d * minutes))' % (86400 * US, 3600 * US, 60 * US)},
+        }
+        fmts = {2: b'%lu:%s', 3: b'%lu:%02lu:%s', 4: b'%lu:%02lu:%02lu:%s'}
+        for bi, fields in want.items():
+            br = branches[bi]
+            got = {v['name']: _fold(kids(v)[-1]) for v in walk(br) if v.get('kind') == 'VarDecl' and v.get('name') in fields and kids(v)}
+            for nm, w_ in fields.items():
+                ctx.check(got.get(nm) == w_, R, 'branch%d|%s' % (bi, nm), br, '%s = %s' % (nm, w_), '%s is computed as %s, expected %s' % (nm, got.get(nm), w_))
+            secs = next((v for v in walk(br) if v.get('kind') == 'VarDecl' and v.get('name') == 'seconds_str'), None)
+            oks = secs is not None and any(string_lit(a) == b'%.*lf' for c in walk(secs) if c.get('kind') == 'CallExpr' for a in call_args(c)[:1]) and 'usecs_part' in nf(kids(secs)[-1]) and str(US) in _fold(kids(secs)[-1])
+            if secs is None:
+                ctx.undecided(R, 'branch%d|seconds-text' % bi, br, 'no separate seconds text in this branch: its layout is decided by evaluation (C18-R5) only')
                 continue
-            fmt = string_lit(call_args(pc)[0]) or b''
-            m = re.search(rb'%\.02f ([A-Z])B', fmt)
-            div = None
-            num = None
-            if m is None and flag and any(c_.get('kind') == 'CallExpr' and call_name(c_) == 'format_size' and len(call_args(c_)) == 2 and nf(call_args(c_)[0]) == 'size' and int_value(call_args(c_)[1]) == 0 for c_ in walk(br)) and re.search(rb'^%zu bytes \(%s\)$', fmt):
-                rows[True] = 'delegates'
+            ctx.check(oks, R, 'branch%d|seconds-text' % bi, secs or br, 'seconds = usecs_part / 10^6 printed with %.*lf', 'seconds text is built from %s' % (nf(kids(secs)[-1]) if secs else None))
+            f0 = [string_lit(call_args(c)[0]) for c in walk(br) if c.get('kind') == 'CallExpr' and call_name(c) == 'string_printf' and string_lit(call_args(c)[0]) and b':' in string_lit(call_args(c)[0])]
+            ctx.check(f0 == [fmts[bi]], R, 'branch%d|field-format' % bi, br, fmts[bi].decode(), 'field format is %s (inner fields must be %%02, the leading field unpadded)' % f0)
+            args = [nf(a) for c in walk(br) if c.get('kind') == 'CallExpr' and call_name(c) == 'string_printf' and string_lit(call_args(c)[0]) == fmts[bi] for a in call_args(c)[1:-1]]
+            ctx.check(args == [k for k in fields if k != 'usecs_part'], R, 'branch%d|field-order' % bi, br, 'fields printed largest first', 'fields are printed as %s' % args)
+
+
+    # ---------------- R6: format_time and format_size/parse_size evaluated (E-TABLE); gmtime_r,
+    # strftime and snprintf follow their specification (the calendar is an independent civil-from-days
+    # computation, the expected text comes from python's datetime)
+    R = 'C18-R6'
+    import datetime as _dt
+    from peval import Lit as PLit
+    r6 = {}
+    PT = PEval([u, us], max_depth=8)
+
+    def run_cases(key, node, cases):
+        ok_, bad_, und_ = 0, None, None
+        for label, thunk, judge_ in cases:
+            try:
+                got = thunk()
+            except PThrown as e_:
+                bad_ = bad_ or (label, 'throws (%s)' % e_)
+                continue
+            except PFault as e_:
+                bad_ = bad_ or (label, 'evaluation faults: %s' % e_)
+                continue
+            except PUnd as e_:
+                und_ = str(e_)
                 break
-            for x in walk(pc):
-                if x.get('kind') == 'BinaryOperator' and x.get('opcode') == '/':
-                    div = int_value(x['inner'][1])
-                    num = nf(x['inner'][0])
-            r = relation(cond, True) if cond is not None else None
-            thr = int_value(r[2]) if r and nf(r[0]) == 'size' and r[1] == '<' else None
-            rows[flag].append((m.group(1).decode() if m else None, div, thr, bool(re.search(rb'^%zu bytes \(', fmt)) == flag, num))
-    letters = 'KMGTPE'
-    if rows[True] == 'delegates':
-        # "<n> bytes (<text of the plain form>)": the ladder is the plain form's by construction
-        ctx.ok(R, 'format_size|include_bytes=True|delegates', fsz, 'the include_bytes form wraps format_size(size, false)')
-        rows[True] = [(g[0], g[1], g[2], True, g[4]) for g in rows[False]]
-    for flag in (True, False):
-        got = rows[flag]
-        ctx.check([g[0] for g in got] == list(letters), R, 'format_size|include_bytes=%s|suffixes' % flag, fsz, 'rows KB..EB in order', 'format_size rows are %s' % [g[0] for g in got])
-        for k, g in enumerate(got):
-            L, div, thr, okform, num = g
-            want_div = 1024 ** (k + 1)
-            want_thr = 1024 ** (k + 2) if k < len(got) - 1 else None
-            ctx.check(div == want_div and thr == want_thr and okform and num == 'size', R, 'format_size|include_bytes=%s|row-%s' % (flag, L), fsz, '%sB: size < 1024^%d, divided by 1024^%d' % (L, k + 2, k + 1),
-                      'row %sB: divisor %s (expected %d), threshold %s (expected %s)%s' % (L, div, want_div, thr, want_thr, '' if okform else ', wrong text form'))
-    ctx.check([(g[0], g[1], g[2]) for g in rows[True]] == [(g[0], g[1], g[2]) for g in rows[False]], R, 'format_size|siblings-agree', fsz, 'both text forms use the same ladder', 'the two text forms of format_size use different ladders')
-    # the unit letter table, by folding parse_size on "1<c>" for every possible unit character c
-    # (exhaustive over the character; nothing is run): K/k..E/e scale by 1024^1..1024^6, every other
-    # character leaves the scale at 1
-    from peval import PEval, Lit, Undecided, Fault
-    PEz = PEval([us])
-    table = {}
-    folded = True
-    for c_ in range(1, 256):
-        if chr(c_).isdigit() or chr(c_) in '. ':
-            continue
+            why_ = judge_(got)
+            if why_:
+                bad_ = bad_ or (label, why_)
+            else:
+                ok_ += 1
+        r6[key] = und_ is None and bad_ is None
+        if und_:
+            ctx.undecided(R, key, node, 'could not be evaluated (%s)' % und_)
+        elif bad_:
+            ctx.bad(R, key, node, '%s: for %s %s' % (key, bad_[0], bad_[1]))
+        else:
+            ctx.ok(R, key, node, '%d cases agree with the reference' % ok_)
+    stamps = set()
+    epoch = _dt.datetime(1970, 1, 1)
+    for y in list(range(1970, 2106, 1)) + list(range(2100, 10000, 97)) + [9999]:
+        for (m_, d_, hh, mm, ss) in ((1, 1, 0, 0, 0), (2, 28, 23, 59, 59), (3, 1, 0, 0, 0), (12, 31, 23, 59, 59), (6, 15, 12, 30, 59)):
+            base = int((_dt.datetime(y, m_, d_, hh, mm, ss) - epoch).total_seconds())
+            for du in (0, 1, 999999):
+                stamps.add(base * US + du)
+            stamps.add((base + 1) * US)
+        if (y % 4 == 0 and y % 100 != 0) or y % 400 == 0:
+            stamps.add(int((_dt.datetime(y, 2, 29, 23, 59, 59) - epoch).total_seconds()) * US + 999999)
+    stamps = {t_ for t_ in stamps if 0 <= t_ <= int((_dt.datetime(9999, 12, 31, 23, 59, 59) - epoch).total_seconds()) * US + 999999}
+
+    def ft_case(t_):
+        want = (epoch + _dt.timedelta(microseconds=t_))
+        want = '%04d-%02d-%02d %02d:%02d:%02d.%06d' % (want.year, want.month, want.day, want.hour, want.minute, want.second, want.microsecond)
+        return ('timestamp %d us' % t_, (lambda: PT.call_with(ft, [t_])), (lambda got: None if isinstance(got, PStr) and bytes(got.b).decode('latin1') == want else 'it renders %r; the UTC date and time is %r' % (bytes(got.b).decode('latin1') if isinstance(got, PStr) else got, want)))
+    run_cases('format_time', ft, [ft_case(t_) for t_ in sorted(stamps)])
+    fsz_ = next((f_ for f_ in us.func('phosg::format_size') if body_of(f_) is not None), None)
+    psz_ = next((f_ for f_ in us.func('phosg::parse_size') if body_of(f_) is not None), None)
+    if fsz_ is not None and psz_ is not None:
+        UNITS = {'K': 1 << 10, 'M': 1 << 20, 'G': 1 << 30, 'T': 1 << 40, 'P': 1 << 50, 'E': 1 << 60}
+        sizes = {0, 1, 2, 999, 1000, 1023}
+        for k_ in range(1, 7):
+            for d_ in (-1, 0, 1):
+                sizes.add(1024 ** k_ + d_)
+            sizes |= {1024 ** k_ * 3 // 2, 1024 ** k_ * 1023, 1024 ** k_ * 7 + 12345 % (1024 ** k_), 1024 ** k_ * 999 + 1024 ** k_ // 3}
+        sizes = {s_ for s_ in sizes if 0 <= s_ < 15 * (1 << 60)}
+
+        def sz_case(s_, ib):
+            def thunk():
+                txt = PT.call_with(fsz_, [s_, ib])
+                back = PT.call_with(psz_, [PLit(bytes(txt.b) + b'\0')])
+                return bytes(txt.b).decode('latin1'), back
+
+            def judge_(got):
+                txt, back = got
+                if s_ < 1024:
+                    return None if txt == '%d bytes' % s_ and back == s_ else 'format_size gives %r and parse_size reads it back as %r' % (txt, back)
+                m_ = re.match(r'^(?:(\d+) bytes \()?(\d+\.\d\d) ([KMGTPE])B\)?$', txt)
+                if not m_ or bool(m_.group(1)) != bool(ib):
+                    return 'format_size gives %r' % txt
+                unit = UNITS[m_.group(3)]
+                tol = unit * 0.005 + s_ * 2.0 ** -22 + 1
+                if not (unit <= s_ < unit * 1024 or (m_.group(3) == 'E' and s_ >= unit)):
+                    return 'format_size gives %r: the unit %sB is not the largest power of 1024 not above the size' % (txt, m_.group(3))
+                if abs(float(m_.group(2)) * unit - s_) > tol:
+                    return 'format_size gives %r, which is %s bytes away from the size' % (txt, abs(float(m_.group(2)) * unit - s_))
+                if ib and (int(m_.group(1)) != s_ or back != s_):
+                    return 'format_size gives %r and parse_size reads it back as %r' % (txt, back)
+                if not ib and abs(back - s_) > tol:
+                    return 'format_size gives %r, parse_size reads it back as %d: they disagree beyond the printed precision' % (txt, back)
+                return None
+            return ('size %d (include_bytes=%d)' % (s_, ib), thunk, judge_)
+        run_cases('format_size/parse_size', fsz_, [sz_case(s_, ib) for s_ in sorted(sizes) for ib in (0, 1)])
+
+    class _Shape(Exception):
+        pass
+
+    def need(cond, msg):
+        if not cond:
+            raise _Shape(msg)
+
+    def structural(fn, rule, key):
+        decided = bool(r6.get(key))
+        real_bad = ctx.bad
+        if decided:
+            ctx.bad = lambda rule_, key_, node_, detail_='': ctx.undecided(rule_, key_, node_, 'differs from the structural pattern (%s); behaviour decided by evaluation (C18-R5/R6)' % detail_[:160])
         try:
-            v_ = PEz.call_with(psz, [Lit(b'1' + bytes([c_]) + b'\0')])
-        except (Undecided, Fault) as e_:
-            ctx.undecided(R, 'parse_size|letter-table', psz, 'parse_size cannot be folded on the text "1%s" (%s)' % (chr(c_) if 32 < c_ < 127 else '\\x%02X' % c_, e_))
-            folded = False
-            break
-        if v_ != 1:
-            table[chr(c_)] = v_
-    if folded:
-        want_t = {}
-        for k_, L in enumerate(letters):
-            want_t[L] = want_t[L.lower()] = 1024 ** (k_ + 1)
-        ctx.check(table == want_t, R, 'parse_size|letter-table', psz, 'K/k..E/e -> 1024^1..1024^6, every other unit character -> 1',
-                  'parse_size unit table differs from format_size\'s ladder: %s' % {k_: v_ for k_, v_ in sorted(table.items()) if want_t.get(k_) != v_} or 'missing %s' % sorted(set(want_t) - set(table)))
-    rets = [r for r in walk(body_of(psz)) if r.get('kind') == 'ReturnStmt']
-    okp = len(rets) == 1
-    why = 'return expression not found'
-    if okp:
-        e = kids(rets[0])[0]
-        # integer_part must reach the result without passing through a floating conversion
-        bad = []
-        for x in walk(e):
-            if x.get('castKind') in ('IntegralToFloating',) and any((ref_decl(y) or {}).get('name') == 'integer_part' for y in walk(x)):
-                bad.append(x)
-        muls = [x for x in walk(e) if x.get('kind') == 'BinaryOperator' and x.get('opcode') == '*' and sorted([nf(x['inner'][0]), nf(x['inner'][1])]) == ['integer_part', 'unit_scale'] and (int_type_info(dtype(x)) or (0,))[0] == 64]
-        okp = not bad and len(muls) == 1
-        why = 'the integer part is converted to floating point before scaling (%s): sizes above 2^53 lose their low digits' % (nf(e)) if bad else 'integer_part * unit_scale is not computed in 64-bit integer arithmetic'
-    ctx.check(okp, R, 'parse_size|integer-part-exact', rets[0] if rets else psz, 'integer_part * unit_scale in integer arithmetic, plus the truncated fractional contribution', why)
-    # unit_scale reaches 2^60: the only 64-bit integer product it may take part in is the one with
-    # integer_part (which overflows exactly when the size itself does not fit); the fractional
-    # contribution must be scaled in floating point
-    wide = []
-    for x in walk(body_of(psz)):
-        if x.get('kind') in ('BinaryOperator', 'CompoundAssignOperator') and x.get('opcode') in ('*', '*=') and (int_type_info(dtype(x)) or (0,))[0] == 64:
-            ops = [nf(x['inner'][0]), nf(x['inner'][1])]
-            if 'unit_scale' in ops and sorted(ops) != ['integer_part', 'unit_scale'] and not all(o.lstrip('-').isdigit() or o == 'unit_scale' for o in ops):
-                wide.append(x)
-    ctx.check(not wide, R, 'parse_size|fraction-scaled-in-floating-point', wide[0] if wide else psz, 'no 64-bit integer product of unit_scale with anything but integer_part',
-              '`%s` multiplies the unit scale (up to 2^60) by another unbounded integer in 64-bit arithmetic: it wraps for the E unit (e.g. "1.50 EB")' % (src_text(wide[0], 60) if wide else ''))
-    dg = [lp for lp in walk(body_of(psz)) if lp.get('kind') == 'ForStmt']
-    acc = [nf(x) for lp in dg for x in walk(lp) if x.get('kind') == 'BinaryOperator' and x.get('opcode') == '=' and nf(x['inner'][0]) == 'integer_part']
-    ctx.check(acc == ['(integer_part = ((*str - 48) + (10 * integer_part)))'], R, 'parse_size|digit-accumulation', psz, 'integer_part = integer_part * 10 + digit', 'digit accumulation is %s' % acc)
+            fn()
+        except (_Shape, StopIteration, IndexError) as e_:
+            if decided:
+                ctx.undecided(rule, key + '|structure', u.path, 'not written in the shape the structural rule reads (%s): decided by evaluation (C18-R6)' % (e_ or 'anchor missing'))
+                ctx.rules[rule] = (ctx.rules[rule][0], 0)
+            else:
+                raise AnalysisBroken(str(e_) or 'anchor missing')
+        finally:
+            ctx.bad = real_bad
+
+    def r3_structure():
+        # ---------------- R3
+        R = 'C18-R3'
+        fb = body_of(ft)
+        calls = [call_name(c) for c in walk(fb) if c.get('kind') == 'CallExpr']
+        gm = [c for c in walk(fb) if c.get('kind') == 'CallExpr' and call_name(c) in ('gmtime_r', 'gmtime', 'localtime', 'localtime_r')]
+        ctx.check(len(gm) == 1 and call_name(gm[0]) == 'gmtime_r', R, 'format_time|gmtime_r', gm[0] if gm else ft, 'UTC breakdown into a caller-owned struct tm (re-entrant)',
+                  'format_time uses %s: %s' % ([call_name(c) for c in gm], 'gmtime() returns a pointer to static storage shared by all threads, so concurrent calls print another call\'s date' if gm and call_name(gm[0]) == 'gmtime' else 'local time instead of UTC'))
+        sv = next((v for v in walk(fb) if v.get('kind') == 'VarDecl' and v.get('name') == 't_secs'), None)
+        ctx.check(sv is not None and nf(kids(sv)[-1]) == '(t / %d)' % US, R, 'format_time|seconds', sv or ft, 'seconds = t / 10^6', 'seconds are computed as %s' % (nf(kids(sv)[-1]) if sv else None))
+        sf = [c for c in walk(fb) if c.get('kind') == 'CallExpr' and call_name(c) == 'strftime']
+        ctx.check(len(sf) == 1 and string_lit(call_args(sf[0])[2]) == b'%Y-%m-%d %H:%M:%S', R, 'format_time|strftime', sf[0] if sf else ft, 'YYYY-MM-DD HH:MM:SS', 'strftime format changed')
+        sn = [c for c in walk(fb) if c.get('kind') == 'CallExpr' and call_name(c) == 'snprintf']
+        oku = len(sn) == 1 and string_lit(call_args(sn[0])[2]) == b'.%06u' and _fold(call_args(sn[0])[3]) in ('(t %% %d)' % US,) and 'len' in nf(call_args(sn[0])[0])
+        if not sn:
+            # appended with string_printf(".%06u", t % 10^6) after the date text
+            from guard import subst_locals
+            sp_ = [c for c in walk(fb) if c.get('kind') == 'CallExpr' and call_name(c) == 'string_printf' and string_lit(call_args(c)[0]) == b'.%06u']
+            if len(sp_) == 1 and sf and sp_[0]['_off'] > sf[0]['_off']:
+                val_ = subst_locals(_fold(call_args(sp_[0])[1]), sp_[0])
+                oku = val_ in ('(t %% %d)' % US,) and strip(containing_statement(sp_[0])).get('kind') == 'CXXOperatorCallExpr' and call_name(strip(containing_statement(sp_[0]))) == 'operator+='
+                sn = sp_
+        ctx.check(oku, R, 'format_time|microseconds', sn[0] if sn else ft, '".%06u" of t mod 10^6 appended after the date', 'microsecond suffix changed: %s' % (_fold(call_args(sn[0])[-1]) if sn else None))
+        a = u.func('phosg::usecs_to_timeval')[0]
+        b = u.func('phosg::timeval_to_usecs')[0]
+        aa = sorted(_fold(x['inner'][1]) for x in walk(body_of(a)) if x.get('kind') == 'BinaryOperator' and x.get('opcode') == '=')
+        rb_ = [nf(kids(r)[0]) for r in walk(body_of(b)) if r.get('kind') == 'ReturnStmt']
+        ctx.check(aa == sorted(['(usecs / %d)' % US, '(usecs %% %d)' % US]) and rb_ == ['((%d * tv.tv_sec) + tv.tv_usec)' % US] or rb_ == ['(tv.tv_usec + (%d * tv.tv_sec))' % US] and aa == sorted(['(usecs / %d)' % US, '(usecs %% %d)' % US]), R, 'timeval|inverse', a, 'sec = usecs / 10^6, usec = usecs mod 10^6; back: sec * 10^6 + usec', 'timeval conversions are %s / %s' % (aa, rb_))
+
+
+    r6['format_duration'] = und5 is None and bad5 is None
+    structural(r1_structure, 'C18-R1', 'format_duration')
+    structural(r2_structure, 'C18-R2', 'format_duration')
+    structural(r3_structure, 'C18-R3', 'format_time')
+
+    def r4_structure():
+        # ---------------- R4
+        R = 'C18-R4'
+        fsz = us.func('phosg::format_size')[0]
+        psz = us.func('phosg::parse_size')[0]
+        ctx.fn('format_size')
+        ctx.fn('parse_size')
+        rows = {True: [], False: []}
+        top = stmts_of(body_of(fsz))
+        # first row: < 1024 -> bytes
+        r0 = relation(if_parts(top[0])[0], True) if top and top[0].get('kind') == 'IfStmt' else None
+        ctx.check(r0 is not None and nf(r0[0]) == 'size' and r0[1] == '<' and int_value(r0[2]) == 1024, R, 'format_size|bytes-row', top[0] if top else fsz, 'below 1024: plain bytes', 'the bytes row threshold changed')
+        inc = next((s_ for s_ in top if s_.get('kind') == 'IfStmt' and nf(if_parts(s_)[0]) == 'include_bytes'), None)
+        need(inc is not None, 'format_size: include_bytes split not found')
+        for flag, br in ((True, if_parts(inc)[1]), (False, if_parts(inc)[2])):
+            for s_ in stmts_of(br):
+                cond = None
+                ret = s_
+                if s_.get('kind') == 'IfStmt':
+                    cond = if_parts(s_)[0]
+                    ret = stmts_of(if_parts(s_)[1])[0]
+                pc = next((c for c in walk(ret) if c.get('kind') == 'CallExpr' and call_name(c) == 'string_printf'), None)
+                if pc is None:
+                    continue
+                fmt = string_lit(call_args(pc)[0]) or b''
+                m = re.search(rb'%\.02f ([A-Z])B', fmt)
+                div = None
+                num = None
+                if m is None and flag and any(c_.get('kind') == 'CallExpr' and call_name(c_) == 'format_size' and len(call_args(c_)) == 2 and nf(call_args(c_)[0]) == 'size' and int_value(call_args(c_)[1]) == 0 for c_ in walk(br)) and re.search(rb'^%zu bytes \(%s\)$', fmt):
+                    rows[True] = 'delegates'
+                    break
+                for x in walk(pc):
+                    if x.get('kind') == 'BinaryOperator' and x.get('opcode') == '/':
+                        div = int_value(x['inner'][1])
+                        num = nf(x['inner'][0])
+                r = relation(cond, True) if cond is not None else None
+                thr = int_value(r[2]) if r and nf(r[0]) == 'size' and r[1] == '<' else None
+                rows[flag].append((m.group(1).decode() if m else None, div, thr, bool(re.search(rb'^%zu bytes \(', fmt)) == flag, num))
+        letters = 'KMGTPE'
+        if rows[True] == 'delegates':
+            # "<n> bytes (<text of the plain form>)": the ladder is the plain form's by construction
+            ctx.ok(R, 'format_size|include_bytes=True|delegates', fsz, 'the include_bytes form wraps format_size(size, false)')
+            rows[True] = [(g[0], g[1], g[2], True, g[4]) for g in rows[False]]
+        for flag in (True, False):
+            got = rows[flag]
+            ctx.check([g[0] for g in got] == list(letters), R, 'format_size|include_bytes=%s|suffixes' % flag, fsz, 'rows KB..EB in order', 'format_size rows are %s' % [g[0] for g in got])
+            for k, g in enumerate(got):
+                L, div, thr, okform, num = g
+                want_div = 1024 ** (k + 1)
+                want_thr = 1024 ** (k + 2) if k < len(got) - 1 else None
+                ctx.check(div == want_div and thr == want_thr and okform and num == 'size', R, 'format_size|include_bytes=%s|row-%s' % (flag, L), fsz, '%sB: size < 1024^%d, divided by 1024^%d' % (L, k + 2, k + 1),
+                          'row %sB: divisor %s (expected %d), threshold %s (expected %s)%s' % (L, div, want_div, thr, want_thr, '' if okform else ', wrong text form'))
+        ctx.check([(g[0], g[1], g[2]) for g in rows[True]] == [(g[0], g[1], g[2]) for g in rows[False]], R, 'format_size|siblings-agree', fsz, 'both text forms use the same ladder', 'the two text forms of format_size use different ladders')
+        # the unit letter table, by folding parse_size on "1<c>" for every possible unit character c
+        # (exhaustive over the character; nothing is run): K/k..E/e scale by 1024^1..1024^6, every other
+        # character leaves the scale at 1
+        from peval import PEval, Lit, Undecided, Fault
+        PEz = PEval([us])
+        table = {}
+        folded = True
+        for c_ in range(1, 256):
+            if chr(c_).isdigit() or chr(c_) in '. ':
+                continue
+            try:
+                v_ = PEz.call_with(psz, [Lit(b'1' + bytes([c_]) + b'\0')])
+            except (Undecided, Fault) as e_:
+                ctx.undecided(R, 'parse_size|letter-table', psz, 'parse_size cannot be folded on the text "1%s" (%s)' % (chr(c_) if 32 < c_ < 127 else '\\x%02X' % c_, e_))
+                folded = False
+                break
+            if v_ != 1:
+                table[chr(c_)] = v_
+        if folded:
+            want_t = {}
+            for k_, L in enumerate(letters):
+                want_t[L] = want_t[L.lower()] = 1024 ** (k_ + 1)
+            ctx.check(table == want_t, R, 'parse_size|letter-table', psz, 'K/k..E/e -> 1024^1..1024^6, every other unit character -> 1',
+                      'parse_size unit table differs from format_size\'s ladder: %s' % {k_: v_ for k_, v_ in sorted(table.items()) if want_t.get(k_) != v_} or 'missing %s' % sorted(set(want_t) - set(table)))
+        rets = [r for r in walk(body_of(psz)) if r.get('kind') == 'ReturnStmt']
+        okp = len(rets) == 1
+        why = 'return expression not found'
+        if okp:
+            e = kids(rets[0])[0]
+            # integer_part must reach the result without passing through a floating conversion
+            bad = []
+            for x in walk(e):
+                if x.get('castKind') in ('IntegralToFloating',) and any((ref_decl(y) or {}).get('name') == 'integer_part' for y in walk(x)):
+                    bad.append(x)
+            muls = [x for x in walk(e) if x.get('kind') == 'BinaryOperator' and x.get('opcode') == '*' and sorted([nf(x['inner'][0]), nf(x['inner'][1])]) == ['integer_part', 'unit_scale'] and (int_type_info(dtype(x)) or (0,))[0] == 64]
+            okp = not bad and len(muls) == 1
+            why = 'the integer part is converted to floating point before scaling (%s): sizes above 2^53 lose their low digits' % (nf(e)) if bad else 'integer_part * unit_scale is not computed in 64-bit integer arithmetic'
+        ctx.check(okp, R, 'parse_size|integer-part-exact', rets[0] if rets else psz, 'integer_part * unit_scale in integer arithmetic, plus the truncated fractional contribution', why)
+        # unit_scale reaches 2^60: the only 64-bit integer product it may take part in is the one with
+        # integer_part (which overflows exactly when the size itself does not fit); the fractional
+        # contribution must be scaled in floating point
+        wide = []
+        for x in walk(body_of(psz)):
+            if x.get('kind') in ('BinaryOperator', 'CompoundAssignOperator') and x.get('opcode') in ('*', '*=') and (int_type_info(dtype(x)) or (0,))[0] == 64:
+                ops = [nf(x['inner'][0]), nf(x['inner'][1])]
+                if 'unit_scale' in ops and sorted(ops) != ['integer_part', 'unit_scale'] and not all(o.lstrip('-').isdigit() or o == 'unit_scale' for o in ops):
+                    wide.append(x)
+        ctx.check(not wide, R, 'parse_size|fraction-scaled-in-floating-point', wide[0] if wide else psz, 'no 64-bit integer product of unit_scale with anything but integer_part',
+                  '`%s` multiplies the unit scale (up to 2^60) by another unbounded integer in 64-bit arithmetic: it wraps for the E unit (e.g. "1.50 EB")' % (src_text(wide[0], 60) if wide else ''))
+        dg = [lp for lp in walk(body_of(psz)) if lp.get('kind') == 'ForStmt']
+        acc = [nf(x) for lp in dg for x in walk(lp) if x.get('kind') == 'BinaryOperator' and x.get('opcode') == '=' and nf(x['inner'][0]) == 'integer_part']
+        ctx.check(acc == ['(integer_part = ((*str - 48) + (10 * integer_part)))'], R, 'parse_size|digit-accumulation', psz, 'integer_part = integer_part * 10 + digit', 'digit accumulation is %s' % acc)
+
+    structural(r4_structure, 'C18-R4', 'format_size/parse_size')
     ctx.note('Not decided: rounding/carry at 59.9995 s, calendar correctness (libc), numeric agreement of format_size/parse_size to the printed precision.')
 
 
